@@ -59,6 +59,8 @@ def run(ctx):
             ctx.copy_props()
     except t_dispatch.TranslateError as e:
         ctx.obligation("T-dispatch:translate obs.py", False, str(e))
+    # ---------------------------------------------------------------- (T) the list-type idl branch of Obs.__init__ = constructor model
+    common.tie_pycore(ctx, ["Tie_init.v"])
 
     # ---------------------------------------------------------------- (X1) constructor stream
     ic = []
